@@ -433,7 +433,9 @@ func (r *Report) writeEvidence(verif, prop, tier string, seed, violations int, k
 	}
 	// obligations that fail because of a recorded genuine defect are not part of what is claimed as proved: they
 	// are reported separately (KNOWN-FINDING lines), so obligations/discharged describe the proved part
-	claimedTotal := r.Total - len(knownPrinted)
+	// likewise an obligation that is not pinned (new, or marked volatile) and did not discharge on this run is
+	// undecided: it is listed under undecided_new_obligations and is not part of the proved count
+	claimedTotal := r.Total - len(knownPrinted) - len(r.undecided)
 	cov := map[string]interface{}{
 		"obligations":                           claimedTotal,
 		"obligations_failing_as_known_findings": len(knownPrinted),
